@@ -28,8 +28,14 @@
    A close method that reaches the point source through the lazy property (`self.point_source.close()`, ActLazyPS - not
    in the source as it is: C18_close_builds_nothing) builds it on the way, and raises when it cannot be built: close_handle
    and close_exn say what that does, so that such a change of the source is a term of the model, not a translation failure.
+   A handle that is only DROPPED (EDrop: no close(), no with statement; the reader / writer / appender becomes garbage): nothing
+   happens to the stream, whatever closefd is and whether a point source exists or not.
+   A SECOND close (EReclose: close() or a with-exit on an object that was closed before): the close method runs again as generated
+   for an object whose own closed flag - when the class keeps one: LasAppender.closed - is set (gen_close_*_again); points given to
+   a closed appender are refused (EUseClosed, gen_use_after_close). What the second close of a reader / writer RETURNS (a writer
+   rewrites its header into the stream once more) is not modelled, only what becomes of the stream.
    Not modelled: positions during write/append sessions and after a failure of the stream (left unchanged), LAZ point
-   sources that can be built (no backend is installed), double close. *)
+   sources that can be built (no backend is installed). *)
 From Coq Require Import ZArith List Bool.
 From LasV Require Import Lib.Base Gen.GenCursor Gen.GenOwnership.
 Import ListNotations.
@@ -96,7 +102,15 @@ Inductive event :=
 | EOpFault (x : exn)                    (* an operation on the handle raises x: an operation of the stream failed under it *)
 | EEndFault (via_exit : bool) (j : nat) (x : exn)   (* the with statement is left (whether its body raised or not) / close() is
                                            called, and the j-th statement of the close method that may use the stream raises x *)
-| EReadLasFault (closefd : bool) (f : finfo) (x : exn).   (* laspy.read: the open succeeds, an operation of the stream fails under read() *)
+| EReadLasFault (closefd : bool) (f : finfo) (x : exn)    (* laspy.read: the open succeeds, an operation of the stream fails under read() *)
+| EDrop                                 (* the caller lets go of the handle WITHOUT close() and without leaving a with statement: the
+                                           object becomes unreachable and is collected. No class has a finalizer, and nothing but the
+                                           close methods lets go of a stream (gen_only_close_closes): the stream is as it was *)
+| EReclose (m : omode) (closefd : bool) (p : psrc)   (* close() - or the exit of a with statement - AGAIN on a reader / writer / appender that
+                                           was closed before and that the caller still holds: the object of mode m that was given closefd
+                                           and whose point source is p. Its close method runs once more, as generated for an object whose
+                                           own closed flag (if the class keeps one) is set: gen_close_*_again *)
+| EUseClosed (m : omode).               (* write_points / append_points on such an object *)
 
 (* the exception constructing the reader / writer / appender raises, by class *)
 Definition fail_exn (m : omode) (o : outcome) : option exn :=
@@ -151,6 +165,16 @@ Definition ensure_ps (h : handle) : made := match h_ps h with PNone => new_ps (h
 Definition is_lazy (a : cact) : bool := match a with ActLazyPS => true | _ => false end.
 Fixpoint before_lazy (acts : list cact) : list cact :=
   match acts with [] => [] | a :: r => if is_lazy a then [] else a :: before_lazy r end.
+
+(* the close method of an object that was closed before *)
+Definition close_prog_again (m : omode) : bool -> bool -> bool -> list cact :=
+  match m with MR => gen_close_reader_again | MW => gen_close_writer_again | MA => gen_close_appender_again end.
+
+Definition close_faults_again (m : omode) : bool -> bool -> bool -> list fault_point :=
+  match m with MR => gen_close_reader_again_faults | MW => gen_close_writer_again_faults | MA => gen_close_appender_again_faults end.
+
+Definition reclose (m : omode) (closefd : bool) (p : psrc) (s : stream) : stream :=
+  fold_left (top_act p) (close_prog_again m (gen_init_closefd m (gen_open_ctor_closefd m closefd)) (has_ps p) true) s.
 
 Definition close_acts (h : handle) : list cact := close_prog (h_mode h) (h_closefd h) (has_ps (h_ps h)) true.
 
@@ -440,6 +464,17 @@ Definition step (t : st) (e : event) : st * res :=
           | None => (t1, r1)
           | Some h => (end_handle HBodyRaised true (upd t1 (op_fault h) (st_s t1)) (op_fault h), end_res true (op_fault h) (RRaised x))
           end
+      end
+  | EDrop => on_handle t (fun _ => (mkSt (st_s t) None (st_log t), RDone))   (* not a moment at which laspy lets go: no log entry *)
+  | EReclose m cf p =>
+      match st_h t with
+      | Some _ => (t, RIgnored)                   (* one handle per stream at a time *)
+      | None => (mkSt (reclose m cf p (st_s t)) None (st_log t), RDone)
+      end
+  | EUseClosed m =>
+      match st_h t with
+      | Some _ => (t, RIgnored)
+      | None => (t, match gen_use_after_close m with Some x => RRaised x | None => RIgnored (* goes on to the stream: not modelled *) end)
       end
   end.
 
